@@ -111,21 +111,31 @@ def runtime_half(ctx, drv, accepted):
             if o in ("*", "CUSTOM_OP"):
                 skipped.add(o)
                 continue
-            for rep in range(reps):
+            # BATCH_MATMUL: the weight's channel axis depends on adj_y, so both orientations of a constant right-hand side are built;
+            # operators whose channel axis is not 0 (DEPTHWISE_CONV_2D, BATCH_MATMUL) also get the config spelt with STRINGS, as a recipe
+            # file / from_dict delivers it (the granularity and dtype are str-valued enums: equal to, not identical with, their members)
+            variants = [(None, True)]
+            if o == "BATCH_MATMUL":
+                variants = [((False, True), True), ((True, True), False)]
+            elif o == "DEPTHWISE_CONV_2D":
+                variants = [(None, True), (None, False)]
+            for rep in range(reps * len(variants)):
+                bmm_force, use_enum = variants[rep % len(variants)]
                 if ctx.left() < 25:
                     ctx.extra["runtime_truncated_at"] = n
                     return
                 kinds = [o] if o in gm.Grower.SUPPORTED else [ctx.rng.choice(["FULLY_CONNECTED", "TANH", "ADD"])]
                 for _try in range(20):   # the random graph inputs must have a rank the operator template accepts
                     mb, info = gm.gen_model(ctx.rng, n_ops=1, n_subgraphs=1, kinds=kinds, p_unsupported=0.0, const_kinds=gm.BENIGN_KINDS, alias_sig=0.0,
-                                            allow_dead=0.0)
+                                            allow_dead=0.0, bmm_force=bmm_force)
                     if o in info["subgraphs"][0]["ops"] or o not in gm.Grower.SUPPORTED:
                         break
                 if o not in info["subgraphs"][0]["ops"] and o in gm.Grower.SUPPORTED:
                     ctx.tag("runtime_not_built:" + o)
                     continue
                 data = gm.random_inputs(mb, ctx.rng, n=1, scale=1.0)
-                cmds = [{"k": "add", "regex": ".*", "operation": o, "cfg": d, "alg": a}]
+                cmds = [{"k": "add", "regex": ".*", "operation": o, "cfg": d, "alg": a, "use_enum": use_enum}]
+                ctx.tag("runtime_config_as_" + ("enums" if use_enum else "strings"))
                 case = fp.Case(mb, info, cmds=cmds, data=data, desc=[(o, a, json.dumps(d, sort_keys=True))])
                 res = fp.run_case(ctx, drv, case, graph_corr=False)
                 n += 1
